@@ -21,6 +21,7 @@ def _schema(n_est):
     @unit("C13", f"schema.{n_est}_estimands", fns=[f"{MRH}.add_unit_predictions", f"{MRH}.add_unit_intervals", f"{MRH}.add_agg_predictions", f"{MRH}.process_final_results"])
     def schema(h):
         """the returned tables keep the same key and category columns however many estimands are requested"""
+        rp = lambda ev: {"target": "verif_replays:schema_replay", "args": [n_est, [0.9, 0.7]], "check": "result['ok']"}  # noqa: E731
         alphas = [0.9, 0.7]  # deliberately not ascending: the labels must follow the request, not a position
         extra_int = []
         for e in ests[1:]:
@@ -59,7 +60,7 @@ def _schema(n_est):
         fin = mr.attrs["final_results"]
         ud, sd = fin["unit_data"], fin["state_data"]
         keys_unit = ["postal_code", "geographic_unit_fips", "reporting", "unit_category"]
-        h.ensures("unit_table.key_and_category_columns_exactly_once", all(list(ud.cols).count(c) == 1 for c in keys_unit) and not any(c.startswith("unit_category_") for c in ud.cols), why=f"unit_data columns: {list(ud.cols)}")
+        h.ensures("unit_table.key_and_category_columns_exactly_once", all(list(ud.cols).count(c) == 1 for c in keys_unit) and not any(c.startswith("unit_category_") for c in ud.cols), why=f"unit_data columns: {list(ud.cols)}", replay=rp)
         h.ensures("state_table.key_columns_exactly_once", all(list(sd.cols).count(c) == 1 for c in ["postal_code", "reporting"]), why=f"state_data columns: {list(sd.cols)}")
         srows = z3.And(*sd.axis.facts())
         urows = z3.And(*ud.axis.facts())
@@ -69,7 +70,7 @@ def _schema(n_est):
             for a in alphas:
                 for s_ in ("lower", "upper"):
                     want = z3.Function(f"state_{s_}_{e}_{a}", z3.StringSort(), z3.IntSort())(gs.keyvars["postal_code"])
-                    h.ensures(f"state_table.{s_}_{a}_{e}_is_the_interval_computed_for_that_level", z3.Implies(srows, sd.col(f"{s_}_{a}_{e}").t == want))
+                    h.ensures(f"state_table.{s_}_{a}_{e}_is_the_interval_computed_for_that_level", z3.Implies(srows, sd.col(f"{s_}_{a}_{e}").t == want), replay=rp)
                     wantu = z3.Function(f"unit_{s_}_{e}_{a}", z3.IntSort(), z3.IntSort())(u)
                     h.ensures(f"unit_table.{s_}_{a}_{e}_is_the_interval_computed_for_that_level", z3.Implies(z3.And(urows, t.N), ud.col(f"{s_}_{a}_{e}").t == wantu))
         facts = z3.And(*t.root.facts())
